@@ -291,6 +291,9 @@ def main(argv=None):
     if hasattr(mod, "warm"):
         mod.warm()
     shards = mod.plan(tier, seed)
+    only = os.environ.get("VERIF_ONLY_SHARDS")  # development aid: restrict to shards whose repr contains this
+    if only:
+        shards = [s for s in shards if only in repr(s)]
     budget = float(os.environ.get("VERIF_BUDGET_S", "0")) or \
         (280.0 if tier == "quick" else 6 * 3600.0)
     total = Result()
@@ -389,7 +392,9 @@ def main(argv=None):
         lines.append("VIOLATION property=%s replay=%s" % (pid, path))
 
     wall = time.time() - t0
-    exhaustive = total.capped is None and not harness_errors
+    exhaustive = total.capped is None and not harness_errors and not only
+    if only:
+        total.capped = total.capped or "restricted to shards matching %r (development run)" % only
     bounds = mod.bounds(tier) if hasattr(mod, "bounds") else {}
     evidence = {
         "property_id": pid,
